@@ -1,6 +1,7 @@
 /-
   C20 — Type-identifier conversions are lossless and consistent for all 2^32 values.
 -/
+import Mb2.Props.FnsTblFixed
 import Mb2.Props.FnsFb
 import Mb2.Props.FnsTblIds
 import Mb2.Props.FnsTblTags
